@@ -47,6 +47,7 @@ EXPLANATION = (
     "TOML key only feeds messages; (D6) per-host statements carry WHERE hostname = ? AND port "
     "= ? bound to the method's own parameters. SQLite and filesystem crash behaviour are trusted. "
     "(D7) no caller of import_toml puts another committing store operation on the same path."
+    ' (D8) a CLI command commits at most one trust-store operation on any path (distinct committing call sites on a TOFUDatabase built in the command; helpers inlined).'
 )
 
 DB = "security.tofu:TOFUDatabase"
@@ -435,6 +436,49 @@ def rule_d7(chk: Check, ci: ClassInfo, mutating) -> None:
     chk.ob("D7", "callers of import_toml outside the store examined", True, f"{n} functions", nontrivial=False)
 
 
+def rule_d8(chk: Check, ci: ClassInfo, mutating) -> None:
+    """Each CLI command is one operation for the user: it must be one store
+    transaction.  Two committing store calls on one path of a command (revoke
+    then trust) leave, after a crash or a failure between them, a state that is
+    neither the one before nor the one after - e.g. a pinned host with no pin."""
+    chk.rule("D8", "a CLI command performs at most one committing trust-store operation on any path: no second committing call is reachable from a first one inside one command function")
+    committing = {m.node.name for m in mutating}
+    mi = chk.proj.modules.get("__main__") or next((m for m in chk.proj.modules.values() if m.name.endswith("__main__")), None)
+    if mi is None:
+        chk.floor("D8", "CLI module", 0, 1)
+    n = 0
+    for fi in mi.functions.values():
+        sites = [c for c in ast.walk(fi.node) if isinstance(c, ast.Call) and method_call(c) and method_call(c)[1] in committing and isinstance(method_call(c)[0], ast.Name)]
+        if not sites:
+            continue
+        # receivers that are TOFUDatabase objects: assigned from TOFUDatabase(...) in this command
+        dbs = {t.id for st in ast.walk(fi.node) if isinstance(st, ast.Assign) and isinstance(st.value, ast.Call) and (dotted(st.value.func) or "").split(".")[-1] == ci.name for t in st.targets if isinstance(t, ast.Name)}
+        sites = [c for c in sites if method_call(c)[0].id in dbs]
+        if not sites:
+            continue
+        n += 1
+        from ..cfg import Builder, inline_local
+
+        g = Builder(chk.proj, inline_local, 2).build(fi)
+        nodes = nodes_calling(g, lambda c: any(c is s_ for s_ in sites))
+        ok = True
+        for a in nodes:
+            fwd = g.reach([b for b, lab in g.succ[a.id] if lab not in ("exc", "raise")])
+            sa = next(c for c in calls(a.ast) if any(c is s_ for s_ in sites))
+            for b in nodes:
+                sb = next(c for c in calls(b.ast) if any(c is s_ for s_ in sites))
+                if sb is not sa and b.id in fwd:
+                    ok = False
+                    ma, mb = method_call(sa)[1], method_call(sb)[1]
+                    chk.finding(
+                        "D8", fi.key, f"command-two-transactions:{ma}+{mb}",
+                        f"the command commits `{ma}` and then `{mb}` as two separate store transactions: a crash or a failure of the second leaves the store in a state that is neither the one before nor the one after the command (after revoke + trust: a pinned host without any pin, so the next connection accepts any certificate)",
+                        b.where(),
+                    )
+        chk.ob("D8", f"{fi.key}: one committing store operation per path", ok, f"{len(nodes)} committing call sites", evals=len(nodes) + 1)
+    chk.require("D8", mi.name, "CLI commands that change the trust store", n, 1, "no CLI command changes the trust store any more: rule anchor lost")
+
+
 def run(chk: Check) -> None:
     ci = chk.proj.cls(DB)
     mutating = rule_d1(chk, ci)
@@ -443,5 +487,6 @@ def run(chk: Check) -> None:
     rule_d5(chk, ci)
     rule_d6(chk, ci)
     rule_d7(chk, ci, mutating)
+    rule_d8(chk, ci, mutating)
     chk.trusted = ["CPython ast parser", "engine CFG", "sqlite3: implicit BEGIN before DML, rollback when a connection is closed uncommitted", "tomllib / tomli_w"]
     chk.assumptions = ["process crashes are covered only through SQLite's own atomic commit (trusted)"]
